@@ -10,7 +10,8 @@ CHECK = dict(
          'macro or static inline in pack.h is simply called). One engine executes every call on the real code and on a model '
          '(expected memory image + unbounded cursor + size given to the last rf_pack_init) and compares after EVERY call: the '
          'buffer image and the bytes beside it, the returned value (0 on overflow), the destination array (copy / zero-filled on '
-         'overflow / bytes outside untouched), rf_pack_consumed, rf_pack_remaining; a fault (inaccessible page, assert, endless '
+         'overflow / bytes outside untouched), rf_pack_consumed, rf_pack_remaining (each read twice: into an int, and in the type the function returns, converted to a double, so '
+         'that an overflow must be a negative number for a caller who compares the call itself with 0); a fault (inaccessible page, assert, endless '
          'loop) during a call is a violation. The buffer lies flush against an inaccessible page (placement R: its end, L: its '
          'start). Families, each a full product: '
          '(seq) every sequence of calls up to the stated length over the alphabet {each implemented rf_pack_X / rf_unpack_X with '
